@@ -62,35 +62,72 @@ def run(ctx):
     styles_rule(ctx); percent_rule(ctx); like_rule(ctx); literal_rule(ctx); littwin_rule(ctx); ident_rule(ctx)
 
 
+def style_scenarios(cg, f):
+    """evaluate the function once per paramstyle (and once for an unknown style): every comparison of a name/attribute with style constants
+    (`x == 'qmark'`, `x in ('qmark', 'format')`) is decided by the scenario, everything else is unknown.  -> ({style: [statement texts reachable
+    only because of that style]}, styles mentioned, unknown-style verdict).  Works for elif chains, sequences of early-return ifs, renamed
+    locals, merged or split branches alike."""
+    from ..typestate import eval_test
+    g = cg.cfg(f)
+    mentioned = set(); style_tests = []
+    for t in g.nodes:
+        if t.kind != 'test': continue
+        for c in ast.walk(t.ast):
+            if isinstance(c, ast.Compare) and len(c.ops) == 1:
+                k = c.comparators[0]
+                consts = [k.value] if isinstance(k, ast.Constant) else [e.value for e in k.elts if isinstance(e, ast.Constant)] if isinstance(k, (ast.Tuple, ast.List, ast.Set)) else []
+                if consts and all(isinstance(v, str) for v in consts) and set(consts) & STYLES and isinstance(c.ops[0], (ast.Eq, ast.NotEq, ast.In, ast.NotIn)):
+                    mentioned |= set(consts)
+                    if t not in style_tests: style_tests.append(t)
+    def reach_for(style):
+        def atom(text, node):
+            if isinstance(node, ast.Compare) and len(node.ops) == 1:
+                k = node.comparators[0]
+                consts = [k.value] if isinstance(k, ast.Constant) else [e.value for e in k.elts if isinstance(e, ast.Constant)] if isinstance(k, (ast.Tuple, ast.List, ast.Set)) else None
+                if consts and all(isinstance(v, str) for v in consts) and (set(consts) & STYLES):
+                    hit = style in consts
+                    return hit if isinstance(node.ops[0], (ast.Eq, ast.In)) else (not hit)
+            return None
+        def edge_ok(x, y, lab):
+            n_ = g.nodes[x]
+            if n_.kind != 'test' or lab not in ('T', 'F'): return True
+            v = eval_test(n_.ast, atom)
+            return v is None or v == (lab == 'T')
+        return g.reach([g.entry], edge_ok=edge_ok), edge_ok
+    unknown, eo_unknown = reach_for('<unknown>')
+    per = {}
+    for st in sorted(STYLES):
+        r, _ = reach_for(st)
+        per[st] = [norm(g.nodes[i].ast, limit=400) for i in sorted(r - unknown) if g.nodes[i].ast is not None and g.nodes[i].kind in ('stmt', 'test')]
+    throws = [x for x in g.nodes if x.kind == 'stmt' and x.ast is not None and any(dotted(c.func) == 'throw' and c.args and dotted(c.args[0]) == 'NotImplementedError' for c in x.calls())]
+    ok_unknown = bool(style_tests) and bool(throws) and any(t.id in unknown for t in throws) and \
+        all(g.must_pass_after(t, throws, exits=[g.exit], edge_ok=eo_unknown) for t in sorted([t for t in style_tests if t.id in unknown], key=lambda t: t.lineno)[-1:])
+    handled = {st for st in STYLES if per[st] and not any('NotImplementedError' in x for x in per[st])}
+    return per, mentioned, handled, ok_unknown
+
+
 def styles_rule(ctx):
-    repo = ctx.repo
-    sites = [(repo.fn(SB, 'Param.__str__'), 'paramstyle'), (repo.fn(SB, 'SQLBuilder.__init__'), 'paramstyle'), (repo.fn('pony.orm.core', 'adapt_sql'), 'paramstyle ==')]
+    repo, cg = ctx.repo, ctx.cg
+    sites = [repo.fn(SB, 'Param.__str__'), repo.fn(SB, 'SQLBuilder.__init__'), repo.fn('pony.orm.core', 'adapt_sql')]
     tables = {}
-    for f, var in sites:
-        ch, tail = style_chain(f.node, var.split()[0])
-        if f.name == 'adapt_sql':
-            # first chain in adapt_sql is the % doubling test; take the chain starting with == 'qmark'
-            ch, tail = {}, None
-            for s in walk_no_nested(f.node):
-                if isinstance(s, ast.If) and norm(s.test) == "paramstyle == 'qmark'":
-                    ch, tail = style_chain(ast.Module(body=[s], type_ignores=[]), 'paramstyle')
-        tables[f.qual] = ch
-        ok = set(ch) == STYLES
-        ctx.ob('C06-STYLES.handles-exactly-the-five-styles', f, f.node, ok, '' if ok else '%s handles %s' % (f.qual, sorted(map(str, ch))))
-        ok = raises(tail)
-        ctx.ob('C06-STYLES.unknown-style-raises', f, f.node, ok, '' if ok else '%s: an unknown paramstyle falls through' % f.qual)
+    for f in sites:
+        per, mentioned, handled, ok_unknown = style_scenarios(cg, f)
+        tables[f.qual] = per
+        ok = handled == STYLES and (mentioned & STYLES) == STYLES and not (mentioned - STYLES)
+        ctx.ob('C06-STYLES.handles-exactly-the-five-styles', f, f.node, ok, '' if ok else '%s handles %s (mentions %s)' % (f.qual, sorted(handled), sorted(mentioned)))
+        ctx.ob('C06-STYLES.unknown-style-raises', f, f.node, ok_unknown, '' if ok_unknown else '%s: an unknown paramstyle falls through' % f.qual)
     ps, init = tables['Param.__str__'], tables['SQLBuilder.__init__']
-    for st in sorted(STYLES & set(ps) & set(init)):
-        ptxt = ' '.join(norm(s) for s in ps[st]); atxt = ' '.join(norm(s) for s in init[st])
+    for st in sorted(STYLES):
+        ptxt = ' '.join(ps.get(st, [])); atxt = ' '.join(init.get(st, []))
         named = 'p%d' in ptxt
-        ok = ("{'p%d' % param.id:" in atxt) if named else ('return tuple(' in atxt)
-        ob = ctx.ob('C06-STYLES.placeholder-form-matches-argument-container', sites[1][0], 'paramstyle ' + st, ok,
+        ok = ("'p%d' % param.id" in atxt) if named else ('tuple(' in atxt)
+        ob = ctx.ob('C06-STYLES.placeholder-form-matches-argument-container', sites[1], 'paramstyle ' + st, ok,
                     '' if ok else 'style %r is rendered as %s placeholders (%s) but its adapter builds %s' % (
-                        st, 'named' if named else 'positional', ptxt, 'a tuple' if 'tuple(' in atxt else 'a dict'))
+                        st, 'named' if named else 'positional', ptxt[:80], 'a tuple' if 'tuple(' in atxt else 'a dict' if atxt else 'nothing'))
         ob.key += '::' + st
         if st in ('numeric', 'named', 'pyformat'):
             ok = 'param.id' in ptxt
-            ctx.ob('C06-STYLES.numbered-placeholder-uses-param-id', sites[0][0], 'paramstyle ' + st, ok, '' if ok else 'placeholder for %r does not use param.id' % st).key += '::' + st
+            ctx.ob('C06-STYLES.numbered-placeholder-uses-param-id', sites[0], 'paramstyle ' + st, ok, '' if ok else 'placeholder for %r does not use param.id' % st).key += '::' + st
 
 
 def percent_rule(ctx):
@@ -238,31 +275,40 @@ QUOTERS = ('quote_name', 'compound_name', 'format_table_name', 'column_list')
 def ident_rule(ctx):
     repo, cg = ctx.repo, ctx.cg
     qn = repo.fn('pony.orm.dbapiprovider', 'DBAPIProvider.quote_name')
-    ok = any(norm(s).replace(' ', '') == 'name=name.replace(quote_char,quote_char+quote_char)' for s in walk_no_nested(qn.node) if isinstance(s, ast.Assign))
-    ctx.ob('C06-IDENT.quote_name-doubles-the-quote-character', qn, qn.node, ok, '' if ok else 'quote_name no longer doubles the quote character inside identifiers')
-    # ... on EVERY path: each return of quote_name either uses the (re-bound) name after the doubling replace, or is assembled from recursive
-    # quote_name calls on the components of a qualified (schema, table) name
+    # every return of quote_name is assembled only from the quote character and from *doubled* text: a local is "doubled" when it was bound to
+    # <name-or-doubled>.replace(quote_char, quote_char + quote_char); a qualified name is handled by recursive quote_name calls on its items
     g = cg.cfg(qn); pname = qn.params[1]
-    dbl = [x for x in g.nodes if x.kind == 'stmt' and isinstance(x.ast, ast.Assign) and norm(x.ast).replace(' ', '') == '%s=%s.replace(quote_char,quote_char+quote_char)' % (pname, pname)]
+    def is_doubling(v):
+        return isinstance(v, ast.Call) and isinstance(v.func, ast.Attribute) and v.func.attr == 'replace' and len(v.args) == 2 and norm(v.args[0]) == 'quote_char' \
+            and norm(v.args[1]).replace(' ', '') in ('quote_char+quote_char', 'quote_char*2', '2*quote_char')
+    dbl_nodes = [x for x in g.nodes if x.kind == 'stmt' and isinstance(x.ast, ast.Assign) and len(x.ast.targets) == 1 and isinstance(x.ast.targets[0], ast.Name) and is_doubling(x.ast.value)
+                 and isinstance(x.ast.value.func.value, ast.Name)]
+    ok = bool(dbl_nodes)
+    ctx.ob('C06-IDENT.quote_name-doubles-the-quote-character', qn, qn.node, ok, '' if ok else 'quote_name no longer doubles the quote character inside identifiers')
     rets = [x for x in g.nodes if x.kind == 'stmt' and isinstance(x.ast, ast.Return) and x.ast.value is not None]
     ctx.floor('C06-IDENT', len(rets), 2, 'returns of quote_name')
     for r in rets:
-        uses_name = any(isinstance(a, ast.Name) and a.id == pname for a in ast.walk(r.ast.value))
+        names = [a for a in ast.walk(r.ast.value) if isinstance(a, ast.Name) and isinstance(a.ctx, ast.Load)]
         recursive = [c for c in ast.walk(r.ast.value) if isinstance(c, ast.Call) and isinstance(c.func, ast.Attribute) and c.func.attr == 'quote_name']
-        if recursive:
-            # the raw name may only be the iterable whose items go through the recursive call
-            okr = all(isinstance(c.args[0], ast.Name) and c.args[0].id != pname for c in recursive if c.args)
-            raw = [a for a in ast.walk(r.ast.value) if isinstance(a, ast.Name) and a.id == pname]
-            okr = okr and all(any(isinstance(gn, ast.comprehension) and gn.iter is a for ge in ast.walk(r.ast.value) if isinstance(ge, (ast.GeneratorExp, ast.ListComp)) for gn in ge.generators) for a in raw)
-        else:
-            okr = uses_name and bool(dbl) and g.dominated(r, dbl)
-            # and the name is not re-bound to something undoubled after the replace
-            if okr:
-                rebinds = [x for x in g.nodes if x.kind == 'stmt' and isinstance(x.ast, ast.Assign) and any(dotted(t) == pname for t in x.ast.targets) and x not in dbl]
-                okr = not any(x.id in g.reach(dbl, include_src=False) and r.id in g.reach([x]) for x in rebinds)
+        okr = True; why = ''
+        comp_vars = {gn.target.id for ge in ast.walk(r.ast.value) if isinstance(ge, (ast.GeneratorExp, ast.ListComp)) for gn in ge.generators if isinstance(gn.target, ast.Name)}
+        for a in names:
+            if a.id in ('quote_char', qn.recv) or a.id in comp_vars: continue
+            if recursive and a.id == pname and any(isinstance(gn, ast.comprehension) and gn.iter is a for ge in ast.walk(r.ast.value) if isinstance(ge, (ast.GeneratorExp, ast.ListComp)) for gn in ge.generators):
+                continue                                  # the qualified name itself, only as the iterable whose items are quoted recursively
+            # the variable must hold doubled text on every path to this return: every definition reaching the return is a doubling assignment
+            defs = [x for x in g.nodes if x.kind == 'stmt' and isinstance(x.ast, ast.Assign) and any(dotted(t) == a.id for t in x.ast.targets)]
+            good = [x for x in defs if x in dbl_nodes]
+            if a.id == pname and not defs: okr = False; why = 'the raw name'; break
+            if not good or not g.dominated(r, good): okr = False; why = '`%s`, which is not doubled on every path' % a.id; break
+            bad_after = [x for x in defs if x not in good and any(x.id in g.reach([gd_], include_src=False) for gd_ in good) and r.id in g.reach([x])]
+            if bad_after: okr = False; why = '`%s`, re-bound to undoubled text after the doubling' % a.id; break
+        if recursive and okr:
+            okr = all(c.args and isinstance(c.args[0], ast.Name) and c.args[0].id in comp_vars for c in recursive)
+            if not okr: why = 'a recursive call that does not quote the items of the qualified name'
         ctx.ob('C06-IDENT.quote_name-doubles-on-every-path', qn, r.ast, okr,
-               '' if okr else 'this return of quote_name emits (a component of) the name without the doubling `replace(quote_char, quote_char+quote_char)`: a qualified name whose '
-               'part contains the quote character closes the identifier early and changes the statement', node=r.ast)
+               '' if okr else 'this return of quote_name emits %s: a name (or a part of a qualified name) containing the quote character closes the identifier early and changes '
+               'the statement' % why, node=r.ast)
     n = 0
     for cls in repo.subclasses(repo.cls(SB, 'SQLBuilder')):
         for name, f in cls.methods.items():
